@@ -244,7 +244,7 @@ func selfTestCtl(r *ev.Run, walks [][]brk.CtlStep) bool {
 }
 
 func ctlCampaign(r *ev.Run, prop string) {
-	cfgs, maxLen := []string{"BrokerCtl_io", "BrokerCtl_q"}, 40
+	cfgs, maxLen := []string{"BrokerCtl_io", "BrokerCtl_hang", "BrokerCtl_q"}, 40
 	if r.Tier == "thorough" {
 		cfgs = []string{"BrokerCtl_io", "BrokerCtl_t"}
 	}
